@@ -651,8 +651,11 @@ class DFunction(Saveable, DataSaveable):
             w = t
             t = w.get_TimeAxis()
 
+            # the frequency step enters as a number in internal units
+            with energy_units("int"):
+                wstep = w.step
             Y = w.length*numpy.fft.fftshift(numpy.fft.ifft(
-                numpy.fft.ifftshift(y)))*w.step/(numpy.pi*2.0)
+                numpy.fft.ifftshift(y)))*wstep/(numpy.pi*2.0)
 
             if w.atype == "complete":
 
